@@ -34,7 +34,7 @@ STATE_NAMES = {-1: "ERROR", 0: "IDLE", 1: "PARSE_PREFIX", 2: "PARSE_COMMAND_CHAR
 class Job:
     def __init__(self, name, harness, defines=None, unwind=None, unwindset=None, checks=False, solver="minisat",
                  timeout=600, hinted=False, samples=2000, witness=True, object_bits=None, mem_gb=14,
-                 max_refine=6, extra=None, note=""):
+                 max_refine=6, extra=None, note="", required_witness=None):
         self.name = name
         self.harness = harness
         self.defines = dict(defines or {})
@@ -51,6 +51,8 @@ class Job:
         self.max_refine = max_refine
         self.extra = list(extra or [])
         self.note = note
+        # witness goals that must be reachable (others are reported but not required: not every goal applies to every shape)
+        self.required_witness = list(required_witness) if required_witness is not None else ["end-of-scenario"]
 
 
 def dflags(defines):
@@ -137,8 +139,8 @@ def parse_sample_output(out):
     lastf = None
     for line in out.splitlines():
         if line.startswith("H "):
-            _, lane, k, s, u = line.split()
-            hints.setdefault((int(lane), int(k)), set()).add((int(s), int(u)))
+            f = [int(x) for x in line.split()[1:]]
+            hints.setdefault((f[0], f[1]), set()).add(tuple(f[2:]))
         elif line.startswith("W "):
             name, cnt = line[2:].rsplit(" ", 1)
             wit[name] = int(cnt)
@@ -173,7 +175,7 @@ def replay_native(exe, hexstr, workdir, tag):
     failed = [l[len("CHECK-FAILED "):] for l in out.splitlines() if l.startswith("CHECK-FAILED ")]
     traj = []
     for l in out.splitlines():
-        m = re.match(r"STEP lane=(\d+) k=(\d+) state=(-?\d+) ustate=(\d+)", l)
+        m = re.match(r"STEP lane=(\d+) k=(\d+) state=(-?\d+) ustate=(\d+) cmd=(-?\d+) var=(-?\d+) index=(-?\d+)", l)
         if m:
             traj.append(tuple(int(x) for x in m.groups()))
     result = "ok"
@@ -196,13 +198,38 @@ def replay_native(exe, hexstr, workdir, tag):
 def gen_hints(hints, path):
     """hints: {(lane,k): set((state,ustate))}"""
     lines = ["/* generated per run from native traces; only a performance device: the default arm is a proof obligation */",
+             "static int vf_var_other(struct cat_object *at)", "{",
+             "        const struct cat_variable *b = at->cmd ? at->cmd->var : NULL;",
+             "        return at->var != NULL && !(b != NULL && at->var >= b && at->var < b + at->cmd->var_num);", "}",
              "static cat_status hinted_service(int lane, int k, struct cat_object *at)", "{",
              "        switch (lane * 1000 + k) {"]
     for (lane, k) in sorted(hints):
         lines.append("        case %d:" % (lane * 1000 + k))
-        for (s, u) in sorted(hints[(lane, k)]):
-            lines.append("                if (at->state == (cat_state)(%d) && at->unsolicited_fsm.state == (cat_unsolicited_state)(%d)) {" % (s, u))
-            lines.append("                        at->state = (cat_state)(%d); at->unsolicited_fsm.state = (cat_unsolicited_state)(%d);" % (s, u))
+        for (s, u, c, v, i) in sorted(hints[(lane, k)]):
+            if c >= 0:
+                cond = "at->cmd == &vf_cmd_base[%d]" % c
+                setc = " at->cmd = &vf_cmd_base[%d];" % c
+            elif c == -1:
+                cond = "at->cmd == NULL"
+                setc = " at->cmd = NULL;"
+            else:
+                cond = "VF_CMDIDX(at->cmd) == -2"
+                setc = ""
+            if v >= 0 and c >= 0:
+                cond += " && at->var == &vf_cmd_base[%d].var[%d]" % (c, v)
+                setc += " at->var = &vf_cmd_base[%d].var[%d];" % (c, v)
+            elif v == -1:
+                cond += " && at->var == NULL"
+                setc += " at->var = NULL;"
+            elif v == -2:
+                cond += " && vf_var_other(at)"
+            if i >= 0:
+                cond += " && at->index == %d" % i
+                setc += " at->index = %d;" % i
+            elif i == -2:
+                cond += " && at->index >= 64"
+            lines.append("                if (at->state == (cat_state)(%d) && at->unsolicited_fsm.state == (cat_unsolicited_state)(%d) && %s) {" % (s, u, cond))
+            lines.append("                        at->state = (cat_state)(%d); at->unsolicited_fsm.state = (cat_unsolicited_state)(%d);%s" % (s, u, setc))
             lines.append("                        return cat_service(at);")
             lines.append("                }")
         lines.append("                break;")
@@ -240,7 +267,7 @@ def cbmc_cmd(job, hints_path, witness=False):
     elif job.solver == "cadical":
         cmd += ["--sat-solver", "cadical"]
     cmd += job.extra
-    cmd += ["--trace", "--json-ui"]
+    cmd += ["--trace", "--json-ui", "--verbosity", "8"]
     return cmd
 
 
@@ -273,6 +300,8 @@ def scen_layout(job):
         return None, 0
     off = 0
     lay = {}
+    fields = []
+    exprs = []
     for decl in m.group(1).split(";"):
         decl = decl.strip()
         if not decl:
@@ -280,11 +309,29 @@ def scen_layout(job):
         dm = re.match(r"unsigned\s+char\s+(\w+)\s*((?:\[[^\]]*\]\s*)*)$", decl)
         if not dm:
             raise RuntimeError("struct scen may only hold unsigned char fields: %r" % decl)
-        dims = [int(eval(d, {"__builtins__": {}}, {})) for d in re.findall(r"\[([^\]]*)\]", dm.group(2))]
+        ds = re.findall(r"\[([^\]]*)\]", dm.group(2))
+        fields.append((dm.group(1), len(ds)))
+        exprs += ds
+    vals = []
+    if exprs:
+        # dimension expressions are C constant expressions: let the C compiler evaluate them
+        src = "#include <stdio.h>\nint main(void){" + "".join('printf("%%d\\n",(int)(%s));' % e for e in exprs) + "return 0;}\n"
+        td = tempfile.mkdtemp(prefix="catverif_lay_")
+        try:
+            open(os.path.join(td, "l.c"), "w").write(src)
+            rc, o, e, dt, to = run_to(["gcc", "-w", os.path.join(td, "l.c"), "-o", os.path.join(td, "l")], 60)
+            rc, o, e, dt, to = run_to([os.path.join(td, "l")], 20)
+            vals = [int(x) for x in o.split()]
+        finally:
+            shutil.rmtree(td, ignore_errors=True)
+    vi = 0
+    for name, nd in fields:
+        dims = vals[vi:vi + nd]
+        vi += nd
         n = 1
         for d in dims:
             n *= d
-        lay[dm.group(1)] = (off, dims)
+        lay[name] = (off, dims)
         off += n
     return lay, off
 
@@ -505,11 +552,22 @@ def run_job(job, workdir, prop, seed=0, log=None):
                 if hexs is None:
                     continue
                 rp = replay_native(nat, hexs, workdir, "hint_%s_%d" % (job.name, it))
-                for (lane, k, s, u) in rp["traj"]:
-                    st = hints.setdefault((lane, k), set())
-                    if (s, u) not in st:
-                        st.add((s, u))
+                for t in rp["traj"]:
+                    st = hints.setdefault((t[0], t[1]), set())
+                    if tuple(t[2:]) not in st:
+                        st.add(tuple(t[2:]))
                         added += 1
+                # the neighbourhood of the counterexample usually holds the sibling trajectories as well
+                hp = os.path.join(workdir, "hint_%s_%d.hex" % (job.name, it))
+                rc2, out2, err2, dt2, to2 = run_to([nat, "--mutate", hp, "30000", str(seed + it + 7)], 120)
+                if rc2 == 0:
+                    h2 = parse_sample_output(out2)[0]
+                    for key, vals in h2.items():
+                        st = hints.setdefault(key, set())
+                        for v in vals:
+                            if v not in st:
+                                st.add(v)
+                                added += 1
             R["refinements"] += 1
             say("hint refinement %d: +%d pairs" % (R["refinements"], added))
             if added == 0:
@@ -537,9 +595,10 @@ def run_job(job, workdir, prop, seed=0, log=None):
                 if p["desc"].startswith("witness:"):
                     ws[p["desc"][8:]] = (p["status"] == "FAILURE")
             R["witness"] = ws
-            if not ws or not all(ws.values()):
+            missing = [k for k in job.required_witness if not ws.get(k)]
+            if not ws or missing:
                 R["status"] = "inconclusive"
-                R["reason"] = "vacuity: witness not reachable: " + ",".join(k for k, v in ws.items() if not v)
+                R["reason"] = "vacuity: witness not reachable: " + ",".join(missing)
     if final == "proved" and R["status"] == "proved":
         try:
             R["functions"] = list_functions(job, workdir, hints_path)
